@@ -62,10 +62,16 @@ func genReceipt(g *genCtx) {
 				for len(v) < L {
 					v = append(v, pieces[r.Intn(len(pieces))]...)
 				}
+			} else if r.Intn(5) == 0 {
+				// colons, and tails of key names in front of them ("rr:", "tat:", "ub:"): values are cut at spaces only
+				pieces := []string{":", "rr:", "tat:", "ub:", "ext:", "lvrd:", "d:", "1", "x", "OK", "EUR"}
+				for len(v) < L {
+					v = append(v, pieces[r.Intn(len(pieces))]...)
+				}
 			} else {
 				v = randBytesFrom(r, L, alpha)
 			}
-			if !containsKeyToken(string(v)) && !strings.Contains(string(v), ":") {
+			if !containsKeyToken(string(v)) {
 				return v
 			}
 		}
